@@ -2165,3 +2165,404 @@ def random_lazy_case(rng):
 
 def _digits_after_k(s):
     return _re.findall(r'\{k(\d+)', s)
+
+
+# ---------------------------------------------------------------------------------------------
+# stream `almost`: leaves that are ALMOST containers
+# ---------------------------------------------------------------------------------------------
+#
+# case = {"stream": "almost", "kind": name, "place": name}. The routing of `_get_formatted_iterable` is by
+# `isinstance` against str, bytes / bytearray, the special types, Mapping, Sequence, Set (inheritance or explicit
+# registration) - never by what an object can do. `almost_tags` asks the real collections.abc classes (not the
+# formatter), the Lean classifier `FmtRoute.route` says which branch that is; for a leaf the monitor is: the
+# identical object at its position, at every position, its constructor never called, none of its container-like
+# methods called, its state as before, no exception; the strings around it formatted.
+
+ALMOST_METHODS = ('__len__', '__iter__', '__contains__', '__getitem__', 'keys')
+ALMOST_CTORS = ('iterable', 'noarg', 'raises')
+ALMOST_COUNTS = {'made': 0, 'touched': 0}
+_ALMOST_CLASSES = {}
+
+
+def almost_class(mask, ctor, register=None, base=object):
+    """A class defining exactly the subset `mask` of ALMOST_METHODS (all of them when registered with an abc), whose
+    constructor takes one optional iterable / takes nothing / raises once armed. Counts constructions and calls."""
+    key = (mask, ctor, register, base.__name__)
+    if key in _ALMOST_CLASSES:
+        return _ALMOST_CLASSES[key]
+    C = ALMOST_COUNTS
+
+    def touch():
+        C['touched'] += 1
+
+    def init_iterable(self, items=()):
+        C['made'] += 1
+        self.items_ = list(items)
+        self.owner = 'owner-{k0}'
+
+    def init_noarg(self):
+        C['made'] += 1
+        self.items_ = [1, 'x{k0}', None]
+        self.owner = 'owner-{k0}'
+
+    def init_raises(self, *a, **kw):
+        C['made'] += 1
+        if type(self).armed:
+            raise RuntimeError('constructor of a leaf object called')
+        self.items_ = [1, 'x{k0}', None]
+        self.owner = 'owner-{k0}'
+
+    def m_len(self):
+        touch()
+        return len(self.items_)
+
+    def m_iter(self):
+        touch()
+        return iter(self.items_)
+
+    def m_contains(self, x):
+        touch()
+        return x in self.items_
+
+    def m_getitem(self, i):
+        touch()
+        return self.items_[i]
+
+    def m_keys(self):
+        touch()
+        return list(range(len(self.items_)))
+    impls = dict(zip(ALMOST_METHODS, (m_len, m_iter, m_contains, m_getitem, m_keys)))
+    ns = {'__init__': {'iterable': init_iterable, 'noarg': init_noarg, 'raises': init_raises}[ctor], 'armed': False,
+          '__repr__': lambda self: f'<{type(self).__name__}>'}
+    for i, name in enumerate(ALMOST_METHODS):
+        if mask >> i & 1:
+            ns[name] = impls[name]
+    if register:
+        def m_items(self):
+            touch()
+            return list(enumerate(self.items_))
+        ns['items'] = m_items
+        ns['__reversed__'] = lambda self: iter(self.items_[::-1])
+    if register == 'Set':
+        ns['__eq__'] = lambda self, o: self is o
+        ns['__hash__'] = lambda self: id(self) >> 4
+    cls = type(f'Almost{mask:02d}{ctor.capitalize()}{register or ""}{"" if base is object else base.__name__.capitalize()}',
+               (base,), ns)
+    if register:
+        getattr(collections.abc, register).register(cls)
+    _ALMOST_CLASSES[key] = cls
+    return cls
+
+
+def _almost_new(cls):
+    if cls.__init__.__name__ == 'init_iterable':
+        o = cls([1, 'x{k0}', None])
+    else:
+        o = cls()
+    if hasattr(cls, 'armed'):
+        cls.armed = True
+    return o
+
+
+def _liar(claims):
+    class Liar:
+        def __init__(self):
+            ALMOST_COUNTS['made'] += 1
+            self.owner = 'owner-{k0}'
+
+        @property
+        def __class__(self):
+            return claims
+
+        def __len__(self):
+            ALMOST_COUNTS['touched'] += 1
+            return 2
+
+        def __iter__(self):
+            ALMOST_COUNTS['touched'] += 1
+            return iter((1, 2))
+
+        def __contains__(self, x):
+            ALMOST_COUNTS['touched'] += 1
+            return False
+    return Liar()
+
+
+class _AnswersEverything:
+    """hasattr(x, anything) is True"""
+    def __getattr__(self, name):
+        if name.startswith('__') and name.endswith('__'):
+            raise AttributeError(name)
+        ALMOST_COUNTS['touched'] += 1
+        return lambda *a, **k: None
+
+
+class _StrSub(str):
+    pass
+
+
+class _BytesSub(bytes):
+    pass
+
+
+class _ByteArraySub(bytearray):
+    pass
+
+
+class _IntSub(int):
+    def __len__(self):
+        ALMOST_COUNTS['touched'] += 1
+        return 1
+
+    def __iter__(self):
+        ALMOST_COUNTS['touched'] += 1
+        return iter((self,))
+
+    def __contains__(self, x):
+        ALMOST_COUNTS['touched'] += 1
+        return False
+
+
+def _gen():
+    yield 'x{k0}'
+    yield 2
+
+
+def _library_kinds():
+    import array
+    import decimal
+    import enum
+    import fractions
+    import functools
+    import io
+    import pathlib
+    import types
+
+    class Colour(enum.Enum):
+        RED = 1
+        BLUE = 2
+
+    class Num(enum.IntEnum):
+        ONE = 1
+
+    class Perm(enum.Flag):
+        R = 1
+        W = 2
+    Pt = collections.namedtuple('Pt', 'x y')
+    src = {'one': 'x{k0}', 'two': 2}
+    return {
+        'dict_values': lambda: src.values(), 'dict_keys': lambda: src.keys(), 'dict_items': lambda: src.items(),
+        'odict_values': lambda: collections.OrderedDict(src).values(),
+        'range': lambda: range(3), 'range-empty': lambda: range(0), 'memoryview': lambda: memoryview(b'ab{k0}'),
+        'array': lambda: array.array('i', [1, 2]), 'deque': lambda: collections.deque([1, 'x{k0}']),
+        'ChainMap': lambda: collections.ChainMap({'a': 1}), 'mappingproxy': lambda: types.MappingProxyType({'a': 1}),
+        'enum-class': lambda: Colour, 'intenum-class': lambda: Num, 'flag-class': lambda: Perm,
+        'enum-member': lambda: Colour.RED, 'intenum-member': lambda: Num.ONE, 'flag-member': lambda: Perm.R | Perm.W,
+        'generator': _gen, 'genexpr': lambda: (x for x in ['x{k0}']), 'list-iterator': lambda: iter(['x{k0}', 1]),
+        'map-object': lambda: map(str, [1, 2]), 'zip-object': lambda: zip('ab', 'cd'), 'enumerate': lambda: enumerate('ab'),
+        'reversed': lambda: reversed([1, 2]), 'dict-iterator': lambda: iter(src),
+        'str-subclass': lambda: _StrSub('s{k0}'), 'str-subclass-plain': lambda: _StrSub('plain'),
+        'bytes-subclass': lambda: _BytesSub(b'b{k0}'), 'bytearray-subclass': lambda: _ByteArraySub(b'b{k0}'),
+        'int-subclass-sized': lambda: _IntSub(7), 'namedtuple': lambda: Pt(1, 'x{k0}'),
+        'namedtuple-class': lambda: Pt, 'class-list': lambda: list, 'class-dict': lambda: dict, 'class-str': lambda: str,
+        'abc-Sequence': lambda: Sequence, 'abc-Mapping': lambda: Mapping,
+        'object': object, 'function': lambda: _gen, 'lambda': lambda: (lambda: 1), 'builtin': lambda: len,
+        'partial': lambda: functools.partial(len, 'ab'), 'module': lambda: collections, 'ellipsis': lambda: Ellipsis,
+        'notimplemented': lambda: NotImplemented, 'slice': lambda: slice(1, 2), 'complex': lambda: 1 + 2j,
+        'decimal': lambda: decimal.Decimal('1.5'), 'fraction': lambda: fractions.Fraction(1, 3),
+        'path': lambda: pathlib.PurePosixPath('/a/{k0}'), 'exception': lambda: ValueError('e{k0}'),
+        'stringio': lambda: io.StringIO('line{k0}\n'), 'bytesio': lambda: io.BytesIO(b'x'),
+        'simplenamespace': lambda: types.SimpleNamespace(a='x{k0}'), 'regex': lambda: _re.compile('a{1}'),
+        'answers-everything': _AnswersEverything,
+        'liar-int': lambda: _liar(int), 'liar-object': lambda: _liar(object), 'liar-float': lambda: _liar(float),
+        'liar-almost': lambda: _liar(almost_class(7, 'iterable')),
+    }
+
+
+_ALMOST_KINDS = None
+
+
+def almost_kinds():
+    """name -> factory of a fresh object"""
+    global _ALMOST_KINDS
+    if _ALMOST_KINDS is None:
+        k = {}
+        for mask in range(32):
+            for ctor in ALMOST_CTORS:
+                k[f'methods:{mask}:{ctor}'] = (lambda m=mask, c=ctor: _almost_new(almost_class(m, c)))
+        for reg in ('Sequence', 'Set', 'Mapping', 'Collection', 'Iterable', 'Sized', 'Container', 'Reversible'):
+            for ctor in ('iterable', 'noarg'):
+                k[f'registered:{reg}:{ctor}'] = (lambda r=reg, c=ctor: _almost_new(almost_class(31, c, register=r)))
+        for base in (int, float):
+            k[f'methods:7:iterable:{base.__name__}'] = (lambda b=base: _almost_sub(b))
+        k.update({'lib:' + n: f for n, f in _library_kinds().items()})
+        _ALMOST_KINDS = k
+    return _ALMOST_KINDS
+
+
+def _almost_sub(base):
+    """an int / float subclass that is sized, iterable and supports `in`"""
+    key = ('sub', base.__name__)
+    if key not in _ALMOST_CLASSES:
+        def touch_len(self):
+            ALMOST_COUNTS['touched'] += 1
+            return 1
+
+        def touch_iter(self):
+            ALMOST_COUNTS['touched'] += 1
+            return iter(())
+
+        def touch_in(self, x):
+            ALMOST_COUNTS['touched'] += 1
+            return False
+        _ALMOST_CLASSES[key] = type('Sized' + base.__name__.capitalize(), (base,),
+                                    {'__len__': touch_len, '__iter__': touch_iter, '__contains__': touch_in})
+    return _ALMOST_CLASSES[key](3)
+
+
+ALMOST_PLACES = ('top', 'list', 'tuple', 'dictval', 'deep', 'twice', 'ctx', 'ctx-rf', 'ctx-ff', 'ctx-member', 'setmember',
+                 'dictkey', 'frozenset', 'in-jsonify-sibling')
+
+
+def almost_tags(o):
+    """what `isinstance` says about `o` against the classes of the routing table - asked of the real classes here,
+    not of the formatter"""
+    return {'passthrough': False, 'special': is_special(o), 'str': isinstance(o, str),
+            'bytes': isinstance(o, (bytes, bytearray)), 'mapping': isinstance(o, Mapping),
+            'sequence': isinstance(o, Sequence), 'set': isinstance(o, Set)}
+
+
+def almost_place(place, o):
+    """(value, context dict, getter: result -> the objects found where `o` was, control: result -> failure text|None)"""
+    ctx = {'k0': 'v0'}
+
+    def hashable():
+        try:
+            hash(o)
+            return True
+        except Exception:
+            return False
+    if place == 'top':
+        return o, ctx, (lambda r: [r]), (lambda r: None)
+    if place == 'list':
+        return ['a{k0}', o, 2], ctx, (lambda r: [r[1]]), (lambda r: None if r[0] == 'av0' and r[2] == 2 and type(r) is list and len(r) == 3 else f'list came back as {r!r}')
+    if place == 'tuple':
+        return (o, 'a{k0}'), ctx, (lambda r: [r[0]]), (lambda r: None if type(r) is tuple and len(r) == 2 and r[1] == 'av0' else f'tuple came back as {r!r}')
+    if place == 'dictval':
+        return {'k{k0}': o, 'p': 'a{k0}'}, ctx, (lambda r: [r['kv0']]), (lambda r: None if list(r) == ['kv0', 'p'] and r['p'] == 'av0' else f'dict came back as {r!r}')
+    if place == 'deep':
+        v = {'k{k0}': [o, 'v{k0}', (o, 1.5)], 'plain': o}
+        return v, ctx, (lambda r: [r['kv0'][0], r['kv0'][2][0], r['plain']]), (lambda r: None if list(r) == ['kv0', 'plain'] and r['kv0'][1] == 'vv0' and r['kv0'][2][1] == 1.5 else f'came back as {r!r}')
+    if place == 'twice':
+        inner = [o, 'a{k0}']
+        return [inner, inner, o], ctx, (lambda r: [r[0][0], r[1][0], r[2]]), (lambda r: None if r[0][1] == 'av0' and r[0] is r[1] else f'shared list came back as {r!r}')
+    if place in ('ctx', 'ctx-rf', 'ctx-ff'):
+        ctx['lf'] = o
+        return '{lf' + place[3:].replace('-', ':') + '}', ctx, (lambda r: [r]), (lambda r: None)
+    if place == 'ctx-member':
+        ctx['lf'] = [o, 'a{k0}']
+        return ['{lf:rf}', 'b'], ctx, (lambda r: [r[0][0]]), (lambda r: None if r[0][1] == 'av0' and r[1] == 'b' else f'came back as {r!r}')
+    if place in ('setmember', 'frozenset', 'dictkey'):
+        if not hashable():
+            return None
+        if place == 'dictkey':
+            return {o: 'a{k0}', 'b': 1}, ctx, (lambda r: [k for k in r if k != 'b']), (lambda r: None if len(r) == 2 and r.get('b') == 1 and 'av0' in r.values() else f'dict came back as {r!r}')
+        cls = set if place == 'setmember' else frozenset
+        return cls([o, 'a{k0}']), ctx, (lambda r: [x for x in r if x != 'av0']), (lambda r: None if type(r) is cls and len(r) == 2 and 'av0' in r else f'set came back as {r!r}')
+    if place == 'in-jsonify-sibling':
+        from pypyr.dsl import Jsonify
+        return [Jsonify({'a': 'x{k0}'}), o], ctx, (lambda r: [r[1]]), (lambda r: None if r[0] == '{"a": "xv0"}' else f'came back as {r!r}')
+    raise ValueError(place)
+
+
+def almost_state(o):
+    """what must be the same before and after, read without calling any counted method"""
+    import inspect
+    import operator
+    if inspect.isgenerator(o):
+        return ('gen', inspect.getgeneratorstate(o))
+    d = getattr(o, '__dict__', None) if not isinstance(o, type) else None
+    if isinstance(d, dict) and 'items_' in d:
+        return ('almost', [repr(x) for x in d['items_']], d.get('owner'))
+    if isinstance(d, dict) and 'owner' in d:
+        return ('owner', d['owner'])
+    if type(o).__name__.endswith('iterator') or type(o) in (map, zip, enumerate, reversed):
+        try:
+            return ('hint', operator.length_hint(o, -1))
+        except Exception:
+            return None
+    return None
+
+
+def run_almost(case, branch, entry='context'):
+    """-> (obs, fails). `branch`: what the Lean routing table says for almost_tags of the object."""
+    try:
+        with time_limit(CASE_SECONDS):
+            return _run_almost(case, branch, entry)
+    except CaseTimeout:
+        return ({'err': 'Timeout'}, [('hang', f'formatting did not return within {CASE_SECONDS}s')])
+
+
+def _run_almost(case, branch, entry):
+    from pypyr.context import Context
+    o = almost_kinds()[case['kind']]()
+    placed = almost_place(case['place'], o)
+    if placed is None:
+        return None, []
+    value, ctxd, getter, control = placed
+    ctx = Context(ctxd)
+    fmtcall = formatter_of(ctx, entry)
+    state = almost_state(o)
+    ident = f'{type(o).__name__} object ({case["kind"]})'
+    ALMOST_COUNTS['made'] = ALMOST_COUNTS['touched'] = 0
+    try:
+        res, err = fmtcall(value), None
+    except Exception as e:
+        res, err = None, e
+    made, touched = ALMOST_COUNTS['made'], ALMOST_COUNTS['touched']
+    for c in _ALMOST_CLASSES.values():
+        if hasattr(c, 'armed'):
+            c.armed = False
+    fails = []
+    leafy = branch in ('leaf', 'bytesLeaf', 'passthrough')
+    if leafy:
+        # "non-string leaves (numbers, booleans, None, bytes, arbitrary objects) come through as the identical objects"
+        if err is not None:
+            fails.append(('leaf-raises', f'formatting a value holding the non-string leaf {ident} at `{case["place"]}` raised '
+                                         f'{type(err).__name__}: {err}'))
+        else:
+            got = getter(res)
+            bad = [g for g in got if g is not o]
+            if bad or not got:
+                fails.append(('leaf-replaced', f'the non-string leaf {ident} at `{case["place"]}` did not come through as the '
+                                               f'identical object: got {[type(g).__name__ for g in got]} '
+                                               f'{[repr(g)[:60] for g in bad]}'))
+            f = control(res)
+            if f:
+                fails.append(('shape', f'around the leaf {ident}: {f}'))
+        if made:
+            fails.append(('leaf-constructor-called', f'formatting called the constructor of the leaf {ident} {made} time(s)'))
+        if touched:
+            fails.append(('leaf-evaluated', f'formatting called {touched} container-like method(s) (__len__ / __iter__ / '
+                                            f'__contains__ / __getitem__ / keys) of the leaf {ident}'))
+        if almost_state(o) != state:
+            fails.append(('leaf-mutated', f'the state of the leaf {ident} changed: {state} -> {almost_state(o)}'))
+        obs = {'err': exc_name(err)} if err is not None else {'same': not fails or all(m not in ('leaf-replaced',) for m, _ in fails)}
+        return obs, fails
+    # routed to a container / string / special branch: the general monitors judge it
+    if err is not None:
+        if py_brace_free(value):
+            fails.append(('bracefree-raises', f'formatting a brace-free value raised {type(err).__name__}: {err}'))
+        return {'err': exc_name(err)}, fails
+    try:
+        f = shape_monitor(value, res, fmt=fmtcall, ctx=ctx)
+    except RecursionError:
+        f = None
+    if f:
+        fails.append(('shape', f))
+    got = getter(res)
+    return {'same': bool(got) and all(g is o for g in got)}, fails
+
+
+def almost_directed_cases():
+    return [{'stream': 'almost', 'kind': k, 'place': p} for k in almost_kinds() for p in ALMOST_PLACES]
